@@ -82,10 +82,11 @@ theorem valid_schedules_exist (files : List (List (Event Nat Nat))) (parts : Lis
   ⟨seqThreading_valid files parts, seqOpenmp_valid parts 0 files⟩
 
 /-- **exactly once**: in every complete run of the work-queue protocol with at
-    least one worker, the parts handed out are exactly the parts enqueued, each
-    once, in order — also with more workers than parts. -/
+    least one worker in which no kernel call failed, the parts handed out are
+    exactly the parts enqueued, each once, in order — also with more workers
+    than parts. (Runs with a failing kernel call end in `raise`: C05.) -/
 theorem queue_exactly_once (p t : Nat) (ht : 1 ≤ t) (as : List QAction) (s : QState)
-    (hrun : qRun (qInit p t) as = some s) (hfin : qFinal s = true) :
+    (hrun : qRun (qInit p t) as = some s) (hfin : qFinal s = true) (hok : qRaises s = false) :
     s.taken = List.range p := by
   obtain ⟨inv, _⟩ := qRun_inv (List.range p) (qInit p t) s as (qInit_inv p t) hrun
   have hlen : s.threads.length = t := by
@@ -106,9 +107,17 @@ theorem queue_exactly_once (p t : Nat) (ht : 1 ≤ t) (as : List QAction) (s : Q
   have h0 : s.threads[0]? = some TState.done := by
     have hlt : 0 < s.threads.length := by omega
     rw [List.getElem?_eq_getElem hlt]
-    have := List.all_eq_true.mp hfin (s.threads[0]) (List.getElem_mem hlt)
-    rw [decide_eq_true_eq] at this
-    rw [this]
+    have h1 := List.all_eq_true.mp hfin (s.threads[0]) (List.getElem_mem hlt)
+    have h2 : ¬ (s.threads[0] = TState.failed) := by
+      intro e
+      have : qRaises s = true := by
+        unfold qRaises
+        exact List.any_eq_true.mpr ⟨_, List.getElem_mem hlt, by simp [e]⟩
+      rw [hok] at this; cases this
+    simp only [Bool.or_eq_true, decide_eq_true_eq] at h1
+    rcases h1 with h1 | h1
+    · rw [h1]
+    · exact absurd h1 h2
   have hq := inv.done_empty ⟨0, h0⟩
   have := inv.conserve
   rw [hq, List.append_nil] at this
@@ -125,15 +134,15 @@ theorem queue_bounded (p t : Nat) (as : List QAction) (s : QState)
     and none of them blocks (`get` is only reached with a non-empty queue). -/
 theorem queue_progress (s : QState) (h : qFinal s = false) : ∃ a, (qStep s a).isSome = true := by
   unfold qFinal at h
-  have : ∃ x ∈ s.threads, x ≠ TState.done := by
+  have : ∃ x ∈ s.threads, x ≠ TState.done ∧ x ≠ TState.failed := by
     by_contra hc
-    have : s.threads.all (fun st => decide (st = TState.done)) = true :=
+    have : s.threads.all (fun st => decide (st = TState.done) || decide (st = TState.failed)) = true :=
       List.all_eq_true.mpr (fun x hx => by
-        rw [decide_eq_true_eq]
+        simp only [Bool.or_eq_true, decide_eq_true_eq]
         by_contra hne
-        exact hc ⟨x, hx, hne⟩)
+        exact hc ⟨x, hx, fun e => hne (Or.inl e), fun e => hne (Or.inr e)⟩)
     rw [this] at h; cases h
-  obtain ⟨x, hx, hnd⟩ := this
+  obtain ⟨x, hx, hnd, hnf⟩ := this
   obtain ⟨t, ht, rfl⟩ := List.getElem_of_mem hx
   have hget : s.threads[t]? = some s.threads[t] := List.getElem?_eq_getElem ht
   cases hst : s.threads[t] with
@@ -143,6 +152,7 @@ theorem queue_progress (s : QState) (h : qFinal s = false) : ∃ a, (qStep s a).
     | cons p rest => exact ⟨.take t, by simp [qStep, hget, hst, hq]⟩
   | running p => exact ⟨.finish t, by simp [qStep, hget, hst]⟩
   | done => exact absurd hst hnd
+  | failed => exact absurd hst hnf
 
 /-! non-vacuity of the protocol theorems: a complete run with 2 parts and 3
 workers (more workers than parts) exists and ends final. -/
